@@ -84,7 +84,10 @@ def bisimLoop {τ₁ τ₂ : Type} [Target τ₁] [Target τ₂] (a : DFA τ₁)
           | c :: cs, acc =>
             match Auto.step a x c, Auto.step b y c with
             | none, none => go cs acc
-            | some x', some y' => go cs ((x', y', c :: w) :: acc)
+            | some x', some y' =>
+              -- enqueue each distinct target pair once
+              if seen.contains (x', y') || acc.any (fun q => q.1 == x' && q.2.1 == y') then go cs acc
+              else go cs ((x', y', c :: w) :: acc)
             | some _, none => .error ((c :: w).reverse, "transition only on the left")
             | none, some _ => .error ((c :: w).reverse, "transition only on the right")
         match go pts [] with
@@ -98,7 +101,7 @@ def bisimLoop {τ₁ τ₂ : Type} [Target τ₁] [Target τ₂] (a : DFA τ₁)
 
 def bisim {τ₁ τ₂ : Type} [Target τ₁] [Target τ₂] (a : DFA τ₁) (b : DFA τ₂)
     (accEq : List Acc → List Acc → Bool) (starts : List (Nat × Nat)) : BisimResult :=
-  bisimLoop a b accEq (4 * (a.length + 2) * (b.length + 2) * 8 + 1000)
+  bisimLoop a b accEq (64 * (a.length + 2) * (b.length + 2) * (a.length + b.length + 4) + 1000)
     (starts.map fun (x, y) => (Cfg.st x, Cfg.st y, [])) []
 
 end Lexgen
